@@ -519,6 +519,49 @@ _AMEND.setdefault("C05", []).append(
     ("text", "Does not decide", "Also decides that handle_define consults and "
      "updates the mapping, and tests the name, only with the case-normalised "
      "name.  Does not decide"))
+_AMEND.setdefault("C19", []).append(
+    ("text", "consume or transfer the resource;",
+     "consume or transfer the resource -- in whatever position the call "
+     "stands: a resource created as an argument or a container element is "
+     "accepted only when the callee takes ownership of that parameter "
+     "(closes, enters, wraps or hands it on, on every path to its normal "
+     "exit);"))
+_AMEND.setdefault("C19", []).append(
+    ("note", "straight-line total.",
+     "straight-line total.  A callee that takes ownership of a parameter is "
+     "not asked to close it on paths where it raises before the hand-over; "
+     "the wrapped resource is a producer site of the callee and is checked on "
+     "all exits there."))
+_AMEND.setdefault("C14", []).append(
+    ("text", "Decides that specifier validation precedes recording;",
+     "Decides that specifier validation precedes recording and refuses "
+     "exactly the reference's set of specifiers (string tests written "
+     "differently are compared as regular languages);"))
+_AMEND.setdefault("C18", []).append(
+    ("text", "on both routes (same expression);",
+     "on both routes (same expression), with loadURL / loadFile taken as each "
+     "concrete loader resolves them (overrides seen through);"))
+_AMEND.setdefault("C18", []).append(
+    ("text", "that every urljoin base is the parser's own resource URL",
+     "that every urljoin base is the parser's own resource URL (for a list "
+     "of references: for each of them, not the previous result)"))
+_AMEND.setdefault("C02", []).append(
+    ("text", "text and key of <default>, order).",
+     "text and key of <default> -- also the empty text of <default/> -- "
+     "through the cdata hand-over, order)."))
+_AMEND.setdefault("C03", []).append(
+    ("text", "under CPython's backtracking priorities",
+     "under CPython's backtracking priorities (with the flags they are "
+     "compiled with; re.ASCII and re.IGNORECASE are modelled)"))
+_AMEND.setdefault("C06", []).append(
+    ("text", "Does not decide equality of outcomes",
+     "The join of an include reference against the including URL equals the "
+     "reference join.  Does not decide equality of outcomes"))
+_AMEND.setdefault("C16", []).append(
+    ("note", "Application subclasses",
+     "C16.R2 uses the lemma that 'the converted name differs from the written "
+     "one' is independent of the table of earlier converted names.  "
+     "Application subclasses"))
 for _pid, _items in _AMEND.items():
     for _field, _old, _new in _items:
         assert _old in CLAIMS[_pid][_field], (_pid, _old)
